@@ -410,3 +410,50 @@ def engine():
     fc = dict(FIELD_CLASSES)
     fc["Module._elab_error"] = (Exception,)
     return mk_engine(contracts=CALLEE_CONTRACTS, inline=INLINE, field_classes=fc, schema_extra=SCHEMA_EXTRA)
+
+
+# ------------------------------------------------------------------------------------------------ establishment
+class PureOpaque(Contract):
+    raises = ()
+
+    def __init__(self, key):
+        self.key = key
+
+    def scenarios(self, eng):
+        return []
+
+
+class ModuleInit(Contract):
+    """Module.__init__ establishes Inv_ns: every kind view and the namespace start empty, the module is not frozen and
+    carries no elaboration error; a non-string name is refused."""
+    key = "hdl21.module:Module.__init__"
+    props = ("C18",)
+    pure = False
+    raises = (TypeError,)
+    returns = "none"
+
+    def scenarios(self, eng):
+        for nm, mk in (("named", lambda: SStr(z3.String("nm"))), ("anonymous", lambda: None)):
+            def setup(eng, st, mk=mk):
+                eng.field_classes.update(FIELD_CLASSES)
+                me = st.alloc(Module)
+                st.heap.put("_initialized", me.z, z3.BoolVal(False))
+                return {"self": me, "name": mk()}
+            yield Scenario(nm, setup)
+
+    def p_empty(self, eng, st0, st, a, res):
+        m = a.self.z
+        empties = [z3.ForAll([_n], z3.Select(st.heap.get(d, m), _n) == NULL) for d in list(MOD_KINDS) + ["namespace"]]
+        return z3.And(empties + [inv_ns(st, m), st.heap.get("Module._elaborated", m) == NULL,
+                                 st.heap.get("Module._elab_error", m) == NULL, st.heap.get("_initialized", m)])
+    posts = property(lambda self: [("establishes-inv_ns", self.p_empty)])
+
+
+def init_engine():
+    fc = dict(FIELD_CLASSES)
+    fc["Module._elab_error"] = (Exception,)
+    return mk_engine(contracts=[ModuleInit(), PureOpaque("hdl21.source_info:source_info")], field_classes=fc,
+                     schema_extra=SCHEMA_EXTRA)
+
+
+VERIFY_INIT = [ModuleInit()]
